@@ -101,7 +101,7 @@ func resolve(e ast.Expr, local map[string]string, pkgs map[string]map[string]str
 
 type lockAccess struct {
 	Struct, Method, Field, Kind string
-	Locked                       bool
+	Locked                      bool
 }
 
 type facts struct {
@@ -121,11 +121,12 @@ type facts struct {
 	IndexSliceSites                                       [][2]string // function, expr   (authz/oidc.go, server/authz.go, http/http.go)
 	ExplicitPanics                                        [][2]string
 	LockTable                                             []lockAccess
-	PackageMaps                                           [][2]string // package-level map variables: file, name
+	PackageMaps                                           [][2]string  // package-level map variables: file, name
 	PackageMapAccess                                      []lockAccess // Struct = var name
 	RegisteredUnits                                       []string
 	RedisFieldWrites                                      [][2]string // function, field  (outside NewRedisStore)
 	SharedConfigWrites                                    [][2]string // function, target expr: assignments through *OIDCConfig / *tls.Config fields outside constructors
+	TLSConfigAliases                                      [][2]string // function, right-hand side: a *tls.Config installed into an http.Transport (TLSClientConfig) - shared with the pool unless cloned
 	TriggerUsesSplitter                                   bool
 }
 
@@ -446,103 +447,118 @@ func main() {
 				methods[sn][fd.Name.Name] = true
 			}
 		}
-		for _, d := range pf.Decls {
-			fd, ok := d.(*ast.FuncDecl)
-			if !ok || fd.Recv == nil || fd.Body == nil || len(fd.Recv.List[0].Names) == 0 {
-				continue
+		tableStart := len(F.LockTable)
+		// two passes: the first finds the methods that write a guarded field, the second records the table
+		writers := map[string]bool{}
+		for pass := 0; pass < 2; pass++ {
+			if pass == 1 {
+				F.LockTable = F.LockTable[:tableStart]
 			}
-			sname := strings.TrimPrefix(strings.Split(funcName(fd), ".")[0], "*")
-			mu, has := mutex[sname]
-			if !has {
-				continue
-			}
-			recv := fd.Recv.List[0].Names[0].Name
-			locked := false
-			var walk func(stmts []ast.Stmt)
-			record := func(n ast.Node, writeCtx bool) {
-				ast.Inspect(n, func(m ast.Node) bool {
-					se, ok := m.(*ast.SelectorExpr)
-					if !ok {
-						return true
-					}
-					id, ok := se.X.(*ast.Ident)
-					if !ok || id.Name != recv {
-						return true
-					}
-					if methods[sname][se.Sel.Name] {
-						F.LockTable = append(F.LockTable, lockAccess{sname, fd.Name.Name, "call:" + se.Sel.Name, "call", locked})
-					}
-					for _, g := range guarded[sname] {
-						if se.Sel.Name == g {
-							k := "read"
-							if writeCtx {
-								k = "write"
-							}
-							F.LockTable = append(F.LockTable, lockAccess{sname, fd.Name.Name, g, k, locked})
+			for _, d := range pf.Decls {
+				fd, ok := d.(*ast.FuncDecl)
+				if !ok || fd.Recv == nil || fd.Body == nil || len(fd.Recv.List[0].Names) == 0 {
+					continue
+				}
+				sname := strings.TrimPrefix(strings.Split(funcName(fd), ".")[0], "*")
+				mu, has := mutex[sname]
+				if !has {
+					continue
+				}
+				recv := fd.Recv.List[0].Names[0].Name
+				locked := false
+				exclusive := false
+				var walk func(stmts []ast.Stmt)
+				record := func(n ast.Node, writeCtx bool) {
+					ast.Inspect(n, func(m ast.Node) bool {
+						se, ok := m.(*ast.SelectorExpr)
+						if !ok {
+							return true
 						}
-					}
-					return true
-				})
-			}
-			walk = func(stmts []ast.Stmt) {
-				for _, s := range stmts {
-					switch x := s.(type) {
-					case *ast.ExprStmt:
-						c := src(x.X)
-						switch c {
-						case recv + "." + mu + ".Lock()", recv + "." + mu + ".RLock()":
-							locked = true
-							continue
-						case recv + "." + mu + ".Unlock()", recv + "." + mu + ".RUnlock()":
-							locked = false
-							continue
+						id, ok := se.X.(*ast.Ident)
+						if !ok || id.Name != recv {
+							return true
 						}
-						isDelete := strings.HasPrefix(c, "delete(")
-						record(x, isDelete)
-					case *ast.DeferStmt:
-						// defer Unlock keeps the lock to the end of the function
-					case *ast.AssignStmt:
-						for _, l := range x.Lhs {
-							record(l, true)
+						if methods[sname][se.Sel.Name] {
+							// calling a helper that writes a guarded field needs the exclusive lock
+							F.LockTable = append(F.LockTable, lockAccess{sname, fd.Name.Name, "call:" + se.Sel.Name, "call", locked && (exclusive || !writers[sname+"."+se.Sel.Name])})
 						}
-						for _, r := range x.Rhs {
-							record(r, false)
-						}
-					case *ast.IfStmt:
-						if x.Init != nil {
-							walk([]ast.Stmt{x.Init})
-						}
-						record(x.Cond, false)
-						save := locked
-						walk(x.Body.List)
-						inner := locked
-						locked = save
-						if x.Else != nil {
-							if b, ok := x.Else.(*ast.BlockStmt); ok {
-								walk(b.List)
-							} else {
-								walk([]ast.Stmt{x.Else})
+						for _, g := range guarded[sname] {
+							if se.Sel.Name == g {
+								k := "read"
+								if writeCtx {
+									k = "write"
+									writers[sname+"."+fd.Name.Name] = true
+								}
+								// a write needs the exclusive lock; a read is fine under either mode
+								F.LockTable = append(F.LockTable, lockAccess{sname, fd.Name.Name, g, k, locked && (exclusive || !writeCtx)})
 							}
 						}
-						_ = inner
-						locked = save
-					case *ast.RangeStmt:
-						record(x.X, false)
-						walk(x.Body.List)
-					case *ast.ForStmt:
-						walk(x.Body.List)
-					case *ast.BlockStmt:
-						walk(x.List)
-					case *ast.ReturnStmt:
-						for _, r := range x.Results {
-							record(r, false)
+						return true
+					})
+				}
+				walk = func(stmts []ast.Stmt) {
+					for _, s := range stmts {
+						switch x := s.(type) {
+						case *ast.ExprStmt:
+							c := src(x.X)
+							switch c {
+							case recv + "." + mu + ".Lock()":
+								locked, exclusive = true, true
+								continue
+							case recv + "." + mu + ".RLock()":
+								locked, exclusive = true, false
+								continue
+							case recv + "." + mu + ".Unlock()", recv + "." + mu + ".RUnlock()":
+								locked = false
+								continue
+							}
+							isDelete := strings.HasPrefix(c, "delete(")
+							record(x, isDelete)
+						case *ast.DeferStmt:
+							// defer Unlock keeps the lock to the end of the function
+						case *ast.AssignStmt:
+							for _, l := range x.Lhs {
+								record(l, true)
+							}
+							for _, r := range x.Rhs {
+								record(r, false)
+							}
+						case *ast.IfStmt:
+							if x.Init != nil {
+								walk([]ast.Stmt{x.Init})
+							}
+							record(x.Cond, false)
+							save := locked
+							walk(x.Body.List)
+							inner := locked
+							locked = save
+							if x.Else != nil {
+								if b, ok := x.Else.(*ast.BlockStmt); ok {
+									walk(b.List)
+								} else {
+									walk([]ast.Stmt{x.Else})
+								}
+							}
+							_ = inner
+							locked = save
+						case *ast.RangeStmt:
+							record(x.X, false)
+							walk(x.Body.List)
+						case *ast.ForStmt:
+							walk(x.Body.List)
+						case *ast.BlockStmt:
+							walk(x.List)
+						case *ast.ReturnStmt:
+							for _, r := range x.Results {
+								record(r, false)
+							}
+						default:
+							record(s, false)
 						}
-					default:
-						record(s, false)
 					}
 				}
+				walk(fd.Body.List)
 			}
-			walk(fd.Body.List)
 		}
 	}
 	// package-level maps (discovery cache) and their accesses with the state of a package-level mutex
@@ -636,6 +652,35 @@ func main() {
 						if strings.HasPrefix(t, p) {
 							F.SharedConfigWrites = append(F.SharedConfigWrites, [2]string{pf.name + ":" + funcName(fd), t})
 						}
+					}
+				}
+				return true
+			})
+		}
+	}
+	// a *tls.Config installed into a transport: net/http writes TLSClientConfig.NextProtos on the first round trip of EVERY
+	// transport, so a config shared by several transports (the pooled one) is written concurrently
+	for _, pf := range []struct {
+		name string
+		f    *ast.File
+	}{{"http/http.go", parse(R("internal/http/http.go"))}, {"authz/oidc.go", oidcGo}, {"oidc/jwks.go", parse(R("internal/oidc/jwks.go"))}, {"tls.go", tlsGo}} {
+		for _, d := range pf.f.Decls {
+			fd, ok := d.(*ast.FuncDecl)
+			if !ok || fd.Body == nil {
+				continue
+			}
+			ast.Inspect(fd.Body, func(n ast.Node) bool {
+				as, ok := n.(*ast.AssignStmt)
+				if !ok {
+					return true
+				}
+				for i, l := range as.Lhs {
+					if strings.HasSuffix(src(l), ".TLSClientConfig") {
+						rhs := src(as.Rhs[0])
+						if len(as.Rhs) == len(as.Lhs) {
+							rhs = src(as.Rhs[i])
+						}
+						F.TLSConfigAliases = append(F.TLSConfigAliases, [2]string{pf.name + ":" + funcName(fd), rhs})
 					}
 				}
 				return true
@@ -746,6 +791,7 @@ func lean(F facts) string {
 	w("def registeredUnits : List String := %s", lS(F.RegisteredUnits))
 	w("def redisFieldWrites : List (String × String) := %s", lpairsS(F.RedisFieldWrites))
 	w("def sharedConfigWrites : List (String × String) := %s", lpairsS(F.SharedConfigWrites))
+	w("def tlsConfigAliases : List (String × String) := %s", lpairsS(F.TLSConfigAliases))
 	w("def triggerUsesSplitter : Bool := %v", F.TriggerUsesSplitter)
 	w("")
 	w("end AuthModel.Generated")
